@@ -1,0 +1,7 @@
+//go:build verif
+
+// Contracts for package witness, checked by /verif's govc (comment-only file).
+package witness
+
+//@ func witness.OriginHash props C18 C20
+//@   defines ret == originHashOf(origin)
